@@ -295,7 +295,8 @@ pub fn run(seed: u64) -> RunReport {
                 *report.fired.entry("fail_write".into()).or_insert(0) += 1;
                 let class = crate::cuts::classify_site(at);
                 *report.stats.entry(format!("fail_at.{class}")).or_insert(0) += 1;
-                report.extra_sites.push(format!("{}|{class}", op.kind()));
+                *report.probes.entry(format!("fail.{}|{class}", op.kind()))
+                    .or_insert(0) += 1;
             }
             log.push(format!(
                 "burst {burst} {} -> {text}{}", op.kind(),
